@@ -306,3 +306,13 @@ Proof.
     destruct (step s l) as [s1|] eqn:E; [|discriminate].
     eapply IH; eauto. eapply Inv_step; eauto.
 Qed.
+
+(* ---- giving up releases the read lock (no waiter is left parked on rlock) ---- *)
+Lemma fatal_releases_lock : forall s t s',
+  (step s (ReadDone t RFatal) = Some s' \/ step s (BatchClose t RFatal) = Some s' \/
+   step s (Deadline t) = Some s' \/ step s (PeekFail t) = Some s') ->
+  rlock s' = None /\ closed s' = true.
+Proof.
+  intros s t s' [H|[H|[H|H]]]; step_inv H; cbn; auto;
+    match goal with Hc : closes_on_fatal ?k = false |- _ => destruct k; cbn in Hc; discriminate end.
+Qed.
